@@ -5,7 +5,7 @@ the complete single-mutation neighbourhood of both, decoded under constrained gu
 """
 from mc.checks import codec_matrix as CM
 from mc.checks.c08 import mutations, SIGMA
-from mc.core.runner import Result, pyasn1_site, exc_text
+from mc.core.runner import guarded, Result, pyasn1_site, exc_text
 from mc.model import x690 as M
 from mc.model import forms as F
 from mc.model import universe as U
@@ -292,7 +292,7 @@ def shard(tier, i, n, seed):
     for idx, name, T, origin, form, data in inputs(tier):
         if (idx + seed) % n != i:
             continue
-        check_input(idx, name, T, origin, form, data, R)
+        guarded(R, lambda: check_input(idx, name, T, origin, form, data, R), {'type': name, 'T': T, 'data': data, 'origin': origin}, {'type:' + name}, idx)
         if idx % 3001 == seed % 3001:
             R.sample({'type': name, 'origin': origin, 'input': data.hex()})
     return R
